@@ -210,7 +210,8 @@ Next == \/ \E t \in Targets, v \in 1 .. 3, pl \in 1 .. 2, rt \in {"lib", "cli", 
         \/ \E b \in BOOLEAN : SetLink(b)
         \/ \E k \in {"add", "delete", "grow", "shrink", "rewrite", "rewritekeep"}, f \in Files : Mutate(k, f)
         \* ("magnetv": the same through the command line with -v, which configures logging for the rest of the process)
-        \/ \E k \in {"recheck", "magnet", "magnetv", "edit"}, t \in Targets : Use(k, t)
+        \* ("editsame": an edit that leaves the metafile's length and time stamp as they were)
+        \/ \E k \in {"recheck", "magnet", "magnetv", "edit", "editsame"}, t \in Targets : Use(k, t)
         \/ \E t \in Targets, se \in {"own", "empty", "part", "decoy"} : Rebuild(t, se)
 Spec == Init /\ [][Next]_vars
 
